@@ -2,15 +2,37 @@
 // paths under /vfs/ live in an in-memory file system with per-descriptor
 // offsets and O_APPEND semantics, every operation on them is a scheduling
 // point and may be failed by the harness; everything else goes to the real os.
+//
+// A virtual descriptor emulates *os.File at the level of the system calls
+// behind it: Write / WriteAt / Read / ReadAt loop over single write(2) /
+// pwrite(2) / read(2) / pread(2) calls the way the real methods do, and each
+// such call is one scheduling point and one question to the harness (Fault).
+// The environment may answer a write with an error, with "k bytes, then the
+// error" or (ShortOK) with a short count and no error - what the kernel does
+// when a size limit or the end of the device is reached in the middle of a
+// write.
+//
+// Code that leaves the os.File API (SyscallConn, Fd) gets a descriptor of a REAL
+// (unlinked, memory-backed) file that mirrors the virtual one: the bytes and
+// the descriptor's offset are copied out before and copied back after every
+// operation, so raw syscall.Write / Pwrite / Fstat / Lseek on the descriptor
+// number behave as on the virtual file. A fault on such a raw write is applied
+// by the real kernel: the harness's byte budget becomes RLIMIT_FSIZE (write
+// position + budget) for the duration of the callback, so the system call
+// itself returns the short count (or EFBIG once nothing fits).
 package vos
 
 import (
 	"errors"
+	"fmt"
 	"io"
+	"io/fs"
 	"os"
+	"os/signal"
 	"strings"
 	"sync"
 	"syscall"
+	"time"
 
 	"verif/mc"
 )
@@ -25,67 +47,156 @@ const (
 	O_SYNC   = os.O_SYNC
 	O_TRUNC  = os.O_TRUNC
 
-	ModePerm = os.ModePerm
+	ModePerm       = os.ModePerm
+	ModeDir        = os.ModeDir
+	ModeAppend     = os.ModeAppend
+	ModeExclusive  = os.ModeExclusive
+	ModeTemporary  = os.ModeTemporary
+	ModeSymlink    = os.ModeSymlink
+	ModeDevice     = os.ModeDevice
+	ModeNamedPipe  = os.ModeNamedPipe
+	ModeSocket     = os.ModeSocket
+	ModeSetuid     = os.ModeSetuid
+	ModeSetgid     = os.ModeSetgid
+	ModeCharDevice = os.ModeCharDevice
+	ModeSticky     = os.ModeSticky
+	ModeIrregular  = os.ModeIrregular
+	ModeType       = os.ModeType
+
+	PathSeparator     = os.PathSeparator
+	PathListSeparator = os.PathListSeparator
+	DevNull           = os.DevNull
+
+	SEEK_SET = 0
+	SEEK_CUR = 1
+	SEEK_END = 2
 )
 
 type (
-	FileMode  = os.FileMode
-	FileInfo  = os.FileInfo
-	PathError = os.PathError
+	FileMode     = os.FileMode
+	FileInfo     = os.FileInfo
+	PathError    = os.PathError
+	LinkError    = os.LinkError
+	SyscallError = os.SyscallError
+	DirEntry     = os.DirEntry
+	Signal       = os.Signal
+	Process      = os.Process
+	ProcAttr     = os.ProcAttr
 )
 
 var (
-	ErrNotExist   = os.ErrNotExist
-	ErrExist      = os.ErrExist
-	ErrPermission = os.ErrPermission
+	ErrNotExist         = os.ErrNotExist
+	ErrExist            = os.ErrExist
+	ErrPermission       = os.ErrPermission
+	ErrClosed           = os.ErrClosed
+	ErrInvalid          = os.ErrInvalid
+	ErrNoDeadline       = os.ErrNoDeadline
+	ErrDeadlineExceeded = os.ErrDeadlineExceeded
+	ErrProcessDone      = os.ErrProcessDone
 
 	Stdin  = os.Stdin
 	Stdout = os.Stdout
 	Stderr = os.Stderr
 
-	Hostname   = os.Hostname
-	Getenv     = os.Getenv
-	LookupEnv  = os.LookupEnv
-	Getpid     = os.Getpid
-	IsNotExist = os.IsNotExist
-	IsExist    = os.IsExist
-	Exit       = os.Exit
-	Executable = os.Executable
-	TempDir    = os.TempDir
-	MkdirAll   = os.MkdirAll
-	Remove     = os.Remove
-	Rename     = os.Rename
-	Stat       = os.Stat
-	ReadFile   = os.ReadFile
-	Chmod      = os.Chmod
-	Environ    = os.Environ
-	Args       = os.Args
+	Interrupt = os.Interrupt
+	Kill      = os.Kill
+
+	Hostname        = os.Hostname
+	Getenv          = os.Getenv
+	LookupEnv       = os.LookupEnv
+	Setenv          = os.Setenv
+	Unsetenv        = os.Unsetenv
+	ExpandEnv       = os.ExpandEnv
+	Expand          = os.Expand
+	Getpid          = os.Getpid
+	Getppid         = os.Getppid
+	Getuid          = os.Getuid
+	Geteuid         = os.Geteuid
+	Getgid          = os.Getgid
+	Getegid         = os.Getegid
+	Getwd           = os.Getwd
+	Getpagesize     = os.Getpagesize
+	UserHomeDir     = os.UserHomeDir
+	UserCacheDir    = os.UserCacheDir
+	UserConfigDir   = os.UserConfigDir
+	IsNotExist      = os.IsNotExist
+	IsExist         = os.IsExist
+	IsPermission    = os.IsPermission
+	IsTimeout       = os.IsTimeout
+	IsPathSeparator = os.IsPathSeparator
+	NewSyscallError = os.NewSyscallError
+	SameFile        = os.SameFile
+	Exit            = os.Exit
+	Executable      = os.Executable
+	TempDir         = os.TempDir
+	MkdirTemp       = os.MkdirTemp
+	RemoveAll       = os.RemoveAll
+	Readlink        = os.Readlink
+	Symlink         = os.Symlink
+	Link            = os.Link
+	ReadDir         = os.ReadDir
+	Chown           = os.Chown
+	Chtimes         = os.Chtimes
+	Environ         = os.Environ
+	Args            = os.Args
 )
 
 const Prefix = "/vfs/"
 
+// ShortOK is an answer of the environment to a write (returned as the errno of
+// Fault together with a byte count): the kernel takes only that many bytes and
+// reports the short count WITHOUT an error - what write(2) does when a file
+// size limit, a quota or the end of the device is reached in the middle of the
+// buffer. The error, if any, comes with the next write.
+const ShortOK = syscall.Errno(0x7fff0001)
+
 type memFile struct {
-	data []byte
+	data  []byte
+	mode  FileMode
+	mtime time.Time
+	// back: the real (unlinked) file that mirrors this one, once some code asked
+	// for a descriptor number
+	back *os.File
 }
 
 var (
 	mu    sync.Mutex
 	files = map[string]*memFile{}
 	dirs  = map[string]bool{"/vfs": true}
-	// Fault decides, per operation on a virtual path, whether it fails
-	// ("" = proceed). op is open|write|close|sync.
+	all   []*memFile // every file created since Reset (named or not)
+	// Fault decides, per system call on a virtual path, what the environment
+	// answers (errno 0 = proceed). op is open | write | close | sync and, since
+	// the descriptor emulates all of *os.File, writeat | read | readat | seek |
+	// stat | truncate | chmod | mkdir | remove | rename. n is the number of bytes
+	// asked for (-1 when the call is made by the program itself on a raw
+	// descriptor and cannot be known beforehand). For write / writeat: errno != 0
+	// with short = k means k bytes reach the file and the call then fails;
+	// errno == ShortOK means k bytes reach the file and the call reports k without
+	// an error. For read / readat ShortOK limits the bytes returned.
 	Fault func(op, path string, n int) (errno syscall.Errno, short int)
 	// OpLog records every virtual operation.
 	OpLog []string
+	// RawLimited counts raw writes (through SyscallConn) on which a byte budget
+	// was imposed; RawLimitHit those on which the file grew by the whole budget,
+	// i.e. the limit was really reached.
+	RawLimited, RawLimitHit int
 )
 
 // Reset clears the virtual file system.
 func Reset() {
 	mu.Lock()
+	for _, m := range all {
+		if m.back != nil {
+			m.back.Close()
+			m.back = nil
+		}
+	}
+	all = nil
 	files = map[string]*memFile{}
 	dirs = map[string]bool{"/vfs": true}
 	OpLog = nil
 	Fault = nil
+	RawLimited, RawLimitHit = 0, 0
 	mu.Unlock()
 }
 
@@ -128,6 +239,7 @@ func Snapshot(path string) []byte {
 	if f == nil {
 		return nil
 	}
+	f.pull()
 	return append([]byte{}, f.data...)
 }
 
@@ -135,6 +247,75 @@ func point(label string) {
 	if t := mc.Active().Me(); t != nil {
 		t.Point(label)
 	}
+}
+
+func virtual(name string) bool { return strings.HasPrefix(name, Prefix) }
+
+// ask puts one system call to the harness (mu held).
+func ask(op, path string, n int) (syscall.Errno, int) {
+	OpLog = append(OpLog, op+" "+path)
+	if Fault == nil {
+		return 0, 0
+	}
+	return Fault(op, path, n)
+}
+
+// ---- the real mirror of a virtual file ----
+
+func scratchDir() string {
+	if st, err := os.Stat("/dev/shm"); err == nil && st.IsDir() {
+		return "/dev/shm"
+	}
+	return ""
+}
+
+// materialize creates the real mirror of m (mu held).
+func (m *memFile) materialize() {
+	if m.back != nil {
+		return
+	}
+	f, err := os.CreateTemp(scratchDir(), "vos-mirror-")
+	if err != nil {
+		panic("vos: cannot create the real mirror of a virtual file: " + err.Error())
+	}
+	os.Remove(f.Name()) // lives as long as descriptors are open on it
+	m.back = f
+	m.push()
+}
+
+// push copies the virtual bytes into the mirror, pull copies them back.
+func (m *memFile) push() {
+	if m.back == nil {
+		return
+	}
+	if err := m.back.Truncate(0); err != nil {
+		panic("vos: mirror: " + err.Error())
+	}
+	if _, err := m.back.WriteAt(m.data, 0); err != nil {
+		panic("vos: mirror: " + err.Error())
+	}
+}
+
+const mirrorCap = 64 << 20
+
+func (m *memFile) pull() {
+	if m.back == nil {
+		return
+	}
+	st, err := m.back.Stat()
+	if err != nil {
+		panic("vos: mirror: " + err.Error())
+	}
+	size := st.Size()
+	if size > mirrorCap {
+		// whatever wrote that much through the raw descriptor: keep the harness alive
+		size = mirrorCap
+	}
+	buf := make([]byte, size)
+	if _, err := io.ReadFull(io.NewSectionReader(m.back, 0, size), buf); err != nil {
+		panic("vos: mirror: " + err.Error())
+	}
+	m.data = buf
 }
 
 // File is either a virtual descriptor or a real *os.File.
@@ -145,6 +326,48 @@ type File struct {
 	flag   int
 	off    int64
 	closed bool
+	// rfd: this descriptor's own open file description on the mirror
+	rfd *os.File
+}
+
+// realFD opens this descriptor's real counterpart (mu held).
+func (f *File) realFD() *os.File {
+	f.f.materialize()
+	if f.rfd == nil {
+		flag := f.flag & (O_RDONLY | O_WRONLY | O_RDWR | O_APPEND | O_SYNC)
+		r, err := os.OpenFile(fmt.Sprintf("/proc/self/fd/%d", f.f.back.Fd()), flag, 0)
+		if err != nil {
+			panic("vos: cannot open a descriptor on the mirror: " + err.Error())
+		}
+		f.rfd = r
+	}
+	return f.rfd
+}
+
+func (f *File) pushOff() {
+	if f.rfd != nil {
+		if _, err := f.rfd.Seek(f.off, io.SeekStart); err != nil {
+			panic("vos: mirror: " + err.Error())
+		}
+	}
+}
+
+func (f *File) pullOff() {
+	if f.rfd != nil {
+		o, err := f.rfd.Seek(0, io.SeekCurrent)
+		if err != nil {
+			panic("vos: mirror: " + err.Error())
+		}
+		f.off = o
+	}
+}
+
+func NewFile(fd uintptr, name string) *File {
+	rf := os.NewFile(fd, name)
+	if rf == nil {
+		return nil
+	}
+	return &File{real: rf}
 }
 
 func Create(name string) (*File, error) {
@@ -153,8 +376,30 @@ func Create(name string) (*File, error) {
 
 func Open(name string) (*File, error) { return OpenFile(name, O_RDONLY, 0) }
 
+func CreateTemp(dir, pattern string) (*File, error) {
+	if !virtual(dir + "/") {
+		rf, err := os.CreateTemp(dir, pattern)
+		if err != nil {
+			return nil, err
+		}
+		return &File{real: rf}, nil
+	}
+	prefix, suffix := pattern, ""
+	if i := strings.LastIndex(pattern, "*"); i >= 0 {
+		prefix, suffix = pattern[:i], pattern[i+1:]
+	}
+	for i := 0; ; i++ {
+		name := fmt.Sprintf("%s/%s%09d%s", strings.TrimSuffix(dir, "/"), prefix, i, suffix)
+		f, err := OpenFile(name, O_RDWR|O_CREATE|O_EXCL, 0600)
+		if err != nil && errors.Is(err, syscall.EEXIST) && i < 10000 {
+			continue
+		}
+		return f, err
+	}
+}
+
 func OpenFile(name string, flag int, perm FileMode) (*File, error) {
-	if !strings.HasPrefix(name, Prefix) {
+	if !virtual(name) {
 		rf, err := os.OpenFile(name, flag, perm)
 		if err != nil {
 			return nil, err
@@ -164,11 +409,8 @@ func OpenFile(name string, flag int, perm FileMode) (*File, error) {
 	point("open")
 	mu.Lock()
 	defer mu.Unlock()
-	OpLog = append(OpLog, "open "+name)
-	if Fault != nil {
-		if errno, _ := Fault("open", name, 0); errno != 0 {
-			return nil, &PathError{Op: "open", Path: name, Err: errno}
-		}
+	if errno, _ := ask("open", name, 0); errno != 0 && errno != ShortOK {
+		return nil, &PathError{Op: "open", Path: name, Err: errno}
 	}
 	dir := name[:strings.LastIndex(name, "/")]
 	if !dirs[dir] {
@@ -182,13 +424,16 @@ func OpenFile(name string, flag int, perm FileMode) (*File, error) {
 		if flag&O_CREATE == 0 {
 			return nil, &PathError{Op: "open", Path: name, Err: syscall.ENOENT}
 		}
-		f = &memFile{}
+		f = &memFile{mode: perm & ModePerm, mtime: time.Now()}
 		files[name] = f
+		all = append(all, f)
 	} else if flag&O_EXCL != 0 && flag&O_CREATE != 0 {
 		return nil, &PathError{Op: "open", Path: name, Err: syscall.EEXIST}
 	}
 	if flag&O_TRUNC != 0 {
+		f.pull()
 		f.data = nil
+		f.push()
 	}
 	return &File{path: name, f: f, flag: flag}, nil
 }
@@ -200,81 +445,316 @@ func (f *File) Name() string {
 	return f.path
 }
 
+func (f *File) writable() bool { return f.flag&(O_WRONLY|O_RDWR) != 0 }
+func (f *File) readable() bool { return f.flag&O_WRONLY == 0 }
+
+// sysWrite is one write(2) (at < 0: at the descriptor's position, or at the end
+// with O_APPEND) or one pwrite(2).
+func (f *File) sysWrite(op string, b []byte, at int64) (int, error) {
+	point(op)
+	mu.Lock()
+	defer mu.Unlock()
+	if f.closed {
+		OpLog = append(OpLog, op+" "+f.path)
+		return 0, os.ErrClosed
+	}
+	if !f.writable() {
+		OpLog = append(OpLog, op+" "+f.path)
+		return 0, &PathError{Op: op, Path: f.path, Err: syscall.EBADF}
+	}
+	n := len(b)
+	var ferr error
+	if errno, short := ask(op, f.path, len(b)); errno != 0 {
+		n = short
+		if n > len(b) {
+			n = len(b)
+		}
+		if n < 0 {
+			n = 0
+		}
+		if errno != ShortOK {
+			ferr = &PathError{Op: op, Path: f.path, Err: errno}
+		}
+	}
+	f.f.pull()
+	f.pullOff()
+	pos := f.off
+	switch {
+	case at >= 0:
+		pos = at
+	case f.flag&O_APPEND != 0:
+		// the kernel positions and writes atomically
+		pos = int64(len(f.f.data))
+	}
+	// without O_APPEND the descriptor's own offset decides: concurrent writers
+	// overwrite each other
+	if n > 0 {
+		end := pos + int64(n)
+		if int64(len(f.f.data)) < end {
+			f.f.data = append(f.f.data, make([]byte, end-int64(len(f.f.data)))...)
+		}
+		copy(f.f.data[pos:end], b[:n])
+		f.f.mtime = time.Now()
+	}
+	if at < 0 {
+		f.off = pos + int64(n)
+	}
+	f.f.push()
+	f.pushOff()
+	return n, ferr
+}
+
+// Write loops over write(2) like (*os.File).Write: a short count without an
+// error is followed by another call for the remainder.
 func (f *File) Write(b []byte) (int, error) {
 	if f.real != nil {
 		return f.real.Write(b)
 	}
-	point("write")
-	mu.Lock()
-	defer mu.Unlock()
-	OpLog = append(OpLog, "write "+f.path)
-	if f.closed {
-		return 0, os.ErrClosed
-	}
-	if f.flag&(O_WRONLY|O_RDWR) == 0 {
-		return 0, &PathError{Op: "write", Path: f.path, Err: syscall.EBADF}
-	}
-	n := len(b)
-	var ferr error
-	if Fault != nil {
-		if errno, short := Fault("write", f.path, len(b)); errno != 0 {
-			n = short
-			if n > len(b) {
-				n = len(b)
-			}
-			ferr = &PathError{Op: "write", Path: f.path, Err: errno}
+	nn := 0
+	for {
+		n, err := f.sysWrite("write", b[nn:], -1)
+		nn += n
+		if nn == len(b) || err != nil {
+			return nn, err
+		}
+		if n == 0 {
+			return nn, io.ErrUnexpectedEOF
 		}
 	}
-	if f.flag&O_APPEND != 0 {
-		// the kernel positions and writes atomically
-		f.f.data = append(f.f.data, b[:n]...)
-		f.off = int64(len(f.f.data))
-	} else {
-		// own offset: concurrent writers overwrite each other
-		end := f.off + int64(n)
-		for int64(len(f.f.data)) < end {
-			f.f.data = append(f.f.data, 0)
-		}
-		copy(f.f.data[f.off:end], b[:n])
-		f.off = end
-	}
-	if ferr != nil {
-		return n, ferr
-	}
-	return n, nil
 }
 
 func (f *File) WriteString(s string) (int, error) { return f.Write([]byte(s)) }
+
+// WriteAt loops over pwrite(2) like (*os.File).WriteAt.
+func (f *File) WriteAt(b []byte, off int64) (int, error) {
+	if f.real != nil {
+		return f.real.WriteAt(b, off)
+	}
+	if f.flag&O_APPEND != 0 {
+		return 0, errors.New("os: invalid use of WriteAt on file opened with O_APPEND")
+	}
+	if off < 0 {
+		return 0, &PathError{Op: "writeat", Path: f.path, Err: errors.New("negative offset")}
+	}
+	nn := 0
+	for {
+		n, err := f.sysWrite("writeat", b[nn:], off+int64(nn))
+		nn += n
+		if nn == len(b) || err != nil {
+			return nn, err
+		}
+		if n == 0 {
+			return nn, io.ErrUnexpectedEOF
+		}
+	}
+}
+
+// sysRead is one read(2) (at < 0) or pread(2).
+func (f *File) sysRead(op string, b []byte, at int64) (int, error) {
+	point(op)
+	mu.Lock()
+	defer mu.Unlock()
+	if f.closed {
+		OpLog = append(OpLog, op+" "+f.path)
+		return 0, os.ErrClosed
+	}
+	if !f.readable() {
+		OpLog = append(OpLog, op+" "+f.path)
+		return 0, &PathError{Op: op, Path: f.path, Err: syscall.EBADF}
+	}
+	max := len(b)
+	if errno, short := ask(op, f.path, len(b)); errno == ShortOK {
+		if short >= 0 && short < max {
+			max = short
+		}
+	} else if errno != 0 {
+		return 0, &PathError{Op: op, Path: f.path, Err: errno}
+	}
+	f.f.pull()
+	f.pullOff()
+	pos := f.off
+	if at >= 0 {
+		pos = at
+	}
+	n := 0
+	if pos < int64(len(f.f.data)) {
+		n = copy(b[:max], f.f.data[pos:])
+	}
+	if at < 0 {
+		f.off = pos + int64(n)
+		f.pushOff()
+	}
+	return n, nil
+}
 
 func (f *File) Read(b []byte) (int, error) {
 	if f.real != nil {
 		return f.real.Read(b)
 	}
-	mu.Lock()
-	defer mu.Unlock()
-	if f.off >= int64(len(f.f.data)) {
+	n, err := f.sysRead("read", b, -1)
+	if n == 0 && err == nil && len(b) > 0 {
 		return 0, io.EOF
 	}
-	n := copy(b, f.f.data[f.off:])
-	f.off += int64(n)
-	return n, nil
+	return n, err
+}
+
+// ReadAt loops over pread(2) until the buffer is full, like (*os.File).ReadAt.
+func (f *File) ReadAt(b []byte, off int64) (int, error) {
+	if f.real != nil {
+		return f.real.ReadAt(b, off)
+	}
+	if off < 0 {
+		return 0, &PathError{Op: "readat", Path: f.path, Err: errors.New("negative offset")}
+	}
+	nn := 0
+	for nn < len(b) {
+		n, err := f.sysRead("readat", b[nn:], off+int64(nn))
+		nn += n
+		if err != nil {
+			return nn, err
+		}
+		if n == 0 {
+			return nn, io.EOF
+		}
+	}
+	return nn, nil
 }
 
 func (f *File) Seek(off int64, whence int) (int64, error) {
 	if f.real != nil {
 		return f.real.Seek(off, whence)
 	}
+	point("seek")
 	mu.Lock()
 	defer mu.Unlock()
+	if f.closed {
+		OpLog = append(OpLog, "seek "+f.path)
+		return 0, os.ErrClosed
+	}
+	if errno, _ := ask("seek", f.path, 0); errno != 0 && errno != ShortOK {
+		return 0, &PathError{Op: "seek", Path: f.path, Err: errno}
+	}
+	f.f.pull()
+	f.pullOff()
+	pos := f.off
 	switch whence {
 	case io.SeekStart:
-		f.off = off
+		pos = off
 	case io.SeekCurrent:
-		f.off += off
+		pos += off
 	case io.SeekEnd:
-		f.off = int64(len(f.f.data)) + off
+		pos = int64(len(f.f.data)) + off
+	default:
+		return 0, &PathError{Op: "seek", Path: f.path, Err: syscall.EINVAL}
 	}
+	if pos < 0 {
+		return 0, &PathError{Op: "seek", Path: f.path, Err: syscall.EINVAL}
+	}
+	f.off = pos
+	f.pushOff()
 	return f.off, nil
+}
+
+type memInfo struct {
+	name  string
+	size  int64
+	mode  FileMode
+	mtime time.Time
+}
+
+func (i memInfo) Name() string       { return i.name }
+func (i memInfo) Size() int64        { return i.size }
+func (i memInfo) Mode() FileMode     { return i.mode }
+func (i memInfo) ModTime() time.Time { return i.mtime }
+func (i memInfo) IsDir() bool        { return i.mode.IsDir() }
+func (i memInfo) Sys() any           { return nil }
+
+func base(path string) string {
+	path = strings.TrimSuffix(path, "/")
+	return path[strings.LastIndex(path, "/")+1:]
+}
+
+func (m *memFile) info(path string) FileInfo {
+	m.pull()
+	return memInfo{base(path), int64(len(m.data)), m.mode, m.mtime}
+}
+
+func (f *File) Stat() (FileInfo, error) {
+	if f.real != nil {
+		return f.real.Stat()
+	}
+	point("stat")
+	mu.Lock()
+	defer mu.Unlock()
+	if f.closed {
+		OpLog = append(OpLog, "stat "+f.path)
+		return nil, os.ErrClosed
+	}
+	if errno, _ := ask("stat", f.path, 0); errno != 0 && errno != ShortOK {
+		return nil, &PathError{Op: "stat", Path: f.path, Err: errno}
+	}
+	return f.f.info(f.path), nil
+}
+
+func (f *File) Truncate(size int64) error {
+	if f.real != nil {
+		return f.real.Truncate(size)
+	}
+	point("truncate")
+	mu.Lock()
+	defer mu.Unlock()
+	if f.closed {
+		OpLog = append(OpLog, "truncate "+f.path)
+		return os.ErrClosed
+	}
+	if !f.writable() || size < 0 {
+		OpLog = append(OpLog, "truncate "+f.path)
+		return &PathError{Op: "truncate", Path: f.path, Err: syscall.EINVAL}
+	}
+	if errno, _ := ask("truncate", f.path, 0); errno != 0 && errno != ShortOK {
+		return &PathError{Op: "truncate", Path: f.path, Err: errno}
+	}
+	f.f.pull()
+	f.f.resize(size)
+	f.f.push()
+	return nil
+}
+
+func (m *memFile) resize(size int64) {
+	if size > mirrorCap {
+		size = mirrorCap
+	}
+	if size <= int64(len(m.data)) {
+		m.data = m.data[:size]
+	} else {
+		m.data = append(m.data, make([]byte, size-int64(len(m.data)))...)
+	}
+	m.mtime = time.Now()
+}
+
+func (f *File) Chmod(mode FileMode) error {
+	if f.real != nil {
+		return f.real.Chmod(mode)
+	}
+	point("chmod")
+	mu.Lock()
+	defer mu.Unlock()
+	if f.closed {
+		OpLog = append(OpLog, "chmod "+f.path)
+		return os.ErrClosed
+	}
+	if errno, _ := ask("chmod", f.path, 0); errno != 0 && errno != ShortOK {
+		return &PathError{Op: "chmod", Path: f.path, Err: errno}
+	}
+	f.f.mode = mode & ModePerm
+	return nil
+}
+
+func (f *File) Chown(uid, gid int) error {
+	if f.real != nil {
+		return f.real.Chown(uid, gid)
+	}
+	return nil
 }
 
 func (f *File) Sync() error {
@@ -282,7 +762,168 @@ func (f *File) Sync() error {
 		return f.real.Sync()
 	}
 	point("sync")
+	mu.Lock()
+	defer mu.Unlock()
+	if f.closed {
+		OpLog = append(OpLog, "sync "+f.path)
+		return os.ErrClosed
+	}
+	if errno, _ := ask("sync", f.path, 0); errno != 0 && errno != ShortOK {
+		return &PathError{Op: "sync", Path: f.path, Err: errno}
+	}
 	return nil
+}
+
+func (f *File) SetDeadline(t time.Time) error {
+	if f.real != nil {
+		return f.real.SetDeadline(t)
+	}
+	return os.ErrNoDeadline
+}
+func (f *File) SetReadDeadline(t time.Time) error {
+	if f.real != nil {
+		return f.real.SetReadDeadline(t)
+	}
+	return os.ErrNoDeadline
+}
+func (f *File) SetWriteDeadline(t time.Time) error {
+	if f.real != nil {
+		return f.real.SetWriteDeadline(t)
+	}
+	return os.ErrNoDeadline
+}
+
+// Fd returns a descriptor number of the real mirror: raw system calls on it see
+// and change what the virtual file holds (the mirror is read back before the
+// next virtual operation and before Snapshot).
+func (f *File) Fd() uintptr {
+	if f.real != nil {
+		return f.real.Fd()
+	}
+	mu.Lock()
+	defer mu.Unlock()
+	if f.closed {
+		return ^uintptr(0)
+	}
+	OpLog = append(OpLog, "fd "+f.path)
+	r := f.realFD()
+	f.pushOff()
+	return r.Fd()
+}
+
+// rawConn is the syscall.RawConn of a virtual descriptor.
+type rawConn struct{ f *File }
+
+func (f *File) SyscallConn() (syscall.RawConn, error) {
+	if f.real != nil {
+		return f.real.SyscallConn()
+	}
+	mu.Lock()
+	defer mu.Unlock()
+	if f.closed {
+		return nil, os.ErrClosed
+	}
+	return rawConn{f}, nil
+}
+
+var ignoreXFSZ sync.Once
+
+// do runs one callback on the real descriptor. For op write the harness is
+// asked first; a byte budget (ShortOK, or "k bytes then an error") becomes the
+// process's file size limit while the callback runs, so that the program's own
+// write(2) is cut short by the kernel. What the kernel reports once nothing fits
+// any more is EFBIG, whatever errno the harness named.
+func (c rawConn) do(op string, call func(rc syscall.RawConn) error) error {
+	f := c.f
+	point(op)
+	mu.Lock()
+	defer mu.Unlock()
+	if f.closed {
+		OpLog = append(OpLog, op+" "+f.path)
+		return os.ErrClosed
+	}
+	budget := int64(-1)
+	switch op {
+	case "write":
+		if errno, short := ask(op, f.path, -1); errno != 0 {
+			budget = int64(short)
+			if budget < 0 {
+				budget = 0
+			}
+		}
+	case "read":
+		if errno, _ := ask(op, f.path, -1); errno != 0 && errno != ShortOK {
+			return &PathError{Op: op, Path: f.path, Err: errno}
+		}
+	default:
+		OpLog = append(OpLog, op+" "+f.path)
+	}
+	f.f.pull()
+	f.pullOff()
+	r := f.realFD()
+	f.f.push()
+	f.pushOff()
+	rc, err := r.SyscallConn()
+	if err != nil {
+		return err
+	}
+	before := int64(len(f.f.data))
+	if budget >= 0 {
+		pos := f.off
+		if f.flag&O_APPEND != 0 {
+			pos = before
+		}
+		RawLimited++
+		err = withFileSizeLimit(pos+budget, func() error { return call(rc) })
+	} else {
+		err = call(rc)
+	}
+	f.f.pull()
+	f.pullOff()
+	if budget >= 0 {
+		grew := int64(len(f.f.data)) - before
+		if grew >= budget {
+			RawLimitHit++
+		}
+		OpLog = append(OpLog, fmt.Sprintf("rawwrite %s budget=%d grew=%d", f.path, budget, grew))
+	}
+	if int64(len(f.f.data)) != before {
+		f.f.mtime = time.Now()
+	}
+	return err
+}
+
+func withFileSizeLimit(limit int64, fn func() error) error {
+	ignoreXFSZ.Do(func() { signal.Ignore(syscall.SIGXFSZ) })
+	var old syscall.Rlimit
+	if err := syscall.Getrlimit(syscall.RLIMIT_FSIZE, &old); err != nil {
+		panic("vos: getrlimit: " + err.Error())
+	}
+	lim := old
+	if uint64(limit) < lim.Cur {
+		lim.Cur = uint64(limit)
+	}
+	if err := syscall.Setrlimit(syscall.RLIMIT_FSIZE, &lim); err != nil {
+		panic("vos: cannot impose a file size limit: " + err.Error())
+	}
+	defer func() {
+		if err := syscall.Setrlimit(syscall.RLIMIT_FSIZE, &old); err != nil {
+			panic("vos: cannot lift the file size limit: " + err.Error())
+		}
+	}()
+	return fn()
+}
+
+func (c rawConn) Control(fn func(fd uintptr)) error {
+	return c.do("control", func(rc syscall.RawConn) error { return rc.Control(fn) })
+}
+
+func (c rawConn) Read(fn func(fd uintptr) bool) error {
+	return c.do("read", func(rc syscall.RawConn) error { return rc.Read(fn) })
+}
+
+func (c rawConn) Write(fn func(fd uintptr) bool) error {
+	return c.do("write", func(rc syscall.RawConn) error { return rc.Write(fn) })
 }
 
 func (f *File) Close() error {
@@ -292,17 +933,82 @@ func (f *File) Close() error {
 	point("close")
 	mu.Lock()
 	defer mu.Unlock()
-	OpLog = append(OpLog, "close "+f.path)
 	if f.closed {
+		OpLog = append(OpLog, "close "+f.path)
 		return os.ErrClosed
 	}
+	f.f.pull()
 	f.closed = true
-	if Fault != nil {
-		if errno, _ := Fault("close", f.path, 0); errno != 0 {
-			return &PathError{Op: "close", Path: f.path, Err: errno}
-		}
+	if f.rfd != nil {
+		f.rfd.Close()
+		f.rfd = nil
+	}
+	if errno, _ := ask("close", f.path, 0); errno != 0 && errno != ShortOK {
+		return &PathError{Op: "close", Path: f.path, Err: errno}
 	}
 	return nil
+}
+
+// ---- package-level functions on paths ----
+
+func lookup(op, name string) (*memFile, bool, error) {
+	if dirs[strings.TrimSuffix(name, "/")] {
+		return nil, true, nil
+	}
+	if m := files[name]; m != nil {
+		return m, false, nil
+	}
+	return nil, false, &PathError{Op: op, Path: name, Err: syscall.ENOENT}
+}
+
+func Stat(name string) (FileInfo, error) {
+	if !virtual(name) && name != strings.TrimSuffix(Prefix, "/") {
+		return os.Stat(name)
+	}
+	point("stat")
+	mu.Lock()
+	defer mu.Unlock()
+	if errno, _ := ask("stat", name, 0); errno != 0 && errno != ShortOK {
+		return nil, &PathError{Op: "stat", Path: name, Err: errno}
+	}
+	m, isDir, err := lookup("stat", name)
+	if err != nil {
+		return nil, err
+	}
+	if isDir {
+		return memInfo{base(name), 0, ModeDir | 0755, time.Time{}}, nil
+	}
+	return m.info(name), nil
+}
+
+func Lstat(name string) (FileInfo, error) {
+	if !virtual(name) {
+		return os.Lstat(name)
+	}
+	return Stat(name)
+}
+
+func ReadFile(name string) ([]byte, error) {
+	if !virtual(name) {
+		return os.ReadFile(name)
+	}
+	f, err := Open(name)
+	if err != nil {
+		return nil, err
+	}
+	defer f.Close()
+	var out []byte
+	buf := make([]byte, 4096)
+	for {
+		n, err := f.Read(buf)
+		out = append(out, buf[:n]...)
+		if err == io.EOF {
+			return out, nil
+		}
+		if err != nil {
+			return out, err
+		}
+	}
 }
 
 func WriteFile(name string, data []byte, perm FileMode) error {
@@ -317,4 +1023,116 @@ func WriteFile(name string, data []byte, perm FileMode) error {
 	return err
 }
 
-var _ = errors.New
+func Truncate(name string, size int64) error {
+	if !virtual(name) {
+		return os.Truncate(name, size)
+	}
+	f, err := OpenFile(name, O_WRONLY, 0)
+	if err != nil {
+		return err
+	}
+	err = f.Truncate(size)
+	if cerr := f.Close(); err == nil {
+		err = cerr
+	}
+	return err
+}
+
+func Chmod(name string, mode FileMode) error {
+	if !virtual(name) {
+		return os.Chmod(name, mode)
+	}
+	point("chmod")
+	mu.Lock()
+	defer mu.Unlock()
+	if errno, _ := ask("chmod", name, 0); errno != 0 && errno != ShortOK {
+		return &PathError{Op: "chmod", Path: name, Err: errno}
+	}
+	m, isDir, err := lookup("chmod", name)
+	if err != nil || isDir {
+		return err
+	}
+	m.mode = mode & ModePerm
+	return nil
+}
+
+func Remove(name string) error {
+	if !virtual(name) {
+		return os.Remove(name)
+	}
+	point("remove")
+	mu.Lock()
+	defer mu.Unlock()
+	if errno, _ := ask("remove", name, 0); errno != 0 && errno != ShortOK {
+		return &PathError{Op: "remove", Path: name, Err: errno}
+	}
+	_, isDir, err := lookup("remove", name)
+	if err != nil {
+		return err
+	}
+	if isDir {
+		d := strings.TrimSuffix(name, "/")
+		for n := range files {
+			if strings.HasPrefix(n, d+"/") {
+				return &PathError{Op: "remove", Path: name, Err: syscall.ENOTEMPTY}
+			}
+		}
+		for n := range dirs {
+			if strings.HasPrefix(n, d+"/") {
+				return &PathError{Op: "remove", Path: name, Err: syscall.ENOTEMPTY}
+			}
+		}
+		delete(dirs, d)
+		return nil
+	}
+	delete(files, name)
+	return nil
+}
+
+func Rename(from, to string) error {
+	if !virtual(from) && !virtual(to) {
+		return os.Rename(from, to)
+	}
+	if !virtual(from) || !virtual(to) {
+		return &LinkError{Op: "rename", Old: from, New: to, Err: syscall.EXDEV}
+	}
+	point("rename")
+	mu.Lock()
+	defer mu.Unlock()
+	if errno, _ := ask("rename", from, 0); errno != 0 && errno != ShortOK {
+		return &LinkError{Op: "rename", Old: from, New: to, Err: errno}
+	}
+	m := files[from]
+	if m == nil {
+		return &LinkError{Op: "rename", Old: from, New: to, Err: syscall.ENOENT}
+	}
+	if !dirs[to[:strings.LastIndex(to, "/")]] {
+		return &LinkError{Op: "rename", Old: from, New: to, Err: syscall.ENOENT}
+	}
+	files[to] = m
+	delete(files, from)
+	return nil
+}
+
+func MkdirAll(path string, perm FileMode) error {
+	if !virtual(path + "/") {
+		return os.MkdirAll(path, perm)
+	}
+	point("mkdir")
+	mu.Lock()
+	defer mu.Unlock()
+	if errno, _ := ask("mkdir", path, 0); errno != 0 && errno != ShortOK {
+		return &PathError{Op: "mkdir", Path: path, Err: errno}
+	}
+	p := strings.TrimSuffix(path, "/")
+	if files[p] != nil {
+		return &PathError{Op: "mkdir", Path: path, Err: syscall.ENOTDIR}
+	}
+	for p != "" && p != "/vfs" {
+		dirs[p] = true
+		p = p[:strings.LastIndex(p, "/")]
+	}
+	return nil
+}
+
+var _ fs.FileInfo = memInfo{}
